@@ -154,6 +154,17 @@ pub fn run(ctx: &Ctx) -> CheckResult {
                     c.inputs.push(crate::case::Input::text("gm-target.map", &format!("{}\n{}", magic, body)));
                     c.steps[0].argv.extend(["-m".to_string(), "gm.map".to_string()]);
                 }));
+                // a gamemap is only an index: what truth has to say about the target must be what it
+                // says when the target is named directly (same text, same file, same line and column)
+                let mut eqc = env_cases.last().unwrap().clone();
+                let mut reference_argv = eqc.steps[0].argv.clone();
+                if let Some(l) = reference_argv.last_mut() {
+                    *l = "gm-target.map".to_string();
+                }
+                eqc.oracle = "stale".into();
+                eqc.name = format!("{} [vs. target named directly]", eqc.name);
+                eqc.meta = serde_json::json!({"stale": [], "variant": "gamemap-transparent", "compare_stderr": true, "reference_steps": [reference_argv]});
+                env_cases.push(eqc);
             }
             env_cases.push(mk("gamemap-target-missing", &|c| {
                 let t = gm(c, "nowhere.map");
